@@ -3,6 +3,7 @@ INVARIANT EditTouchesOnlyTarget
 INVARIANT EditFailsIff
 INVARIANT KeepKeepsConfiguration
 INVARIANT AppendedKeyIsShown
+INVARIANT CommentedLineIsInert
 INVARIANT EditedTreeReadable
 INVARIANT RevertRemovesDropins
 INVARIANT RevertedShow
